@@ -268,7 +268,9 @@ def do_check(pid, tier, seed, args, t0):
         "bounded": bounded_out,
         "witness_checks": wit["count"],
         "samples": samples + wit["samples"][:2],
-        "explanation": getattr(M, "EXPLANATION", ""),
+        "explanation": getattr(M, "EXPLANATION", "") or (
+            f"{n_dis} of {n_obl} obligations generated from the current source discharged; "
+            f"bounded stand-ins: {[b.get('name') for b in bounded_out]} (never counted as proved); see trusted_base and functions_under_contract"),
         "known_findings_reported": [k["what"] for k, _ in known_hits],
     }
     be = sum(b.get("evaluations", 0) for b in bounded_out) + wit["count"]
